@@ -1,9 +1,113 @@
 import RefurbVerif.Wire.Basic
+import RefurbVerif.Model.Equiv
+import RefurbVerif.Generated.EquivCfg
 open Lean
 
 namespace RefurbVerif.Wire
 
-/-- driver verbs of this group (filled in by the property that owns it) -/
-def handleEquiv (_verb : String) (_j : Json) : Option Json := none
+namespace EquivW
+open RefurbVerif.Equiv
+
+/-- text: a JSON string, or an array of code points (lone surrogates and astral characters travel as numbers) -/
+def txt (j : Json) : Equiv.Str :=
+  match j with
+  | .str s => s.toList
+  | .arr a => a.toList.map (fun x => Char.ofNat ((x.getNat?).toOption.getD 0))
+  | _ => []
+
+def field (j : Json) (k : String) : Json := (j.getObjVal? k).toOption.getD Json.null
+
+def optTxt (j : Json) : Option Equiv.Str :=
+  match j with
+  | .null => none
+  | x => some (txt x)
+
+def litKind (s : String) : LitKind :=
+  match s with
+  | "int" => .int
+  | "str" => .str
+  | "bytes" => .bytes
+  | "float" => .float
+  | "complex" => .complex
+  | _ => .ellipsis
+
+def seqKind (s : String) : SeqKind :=
+  match s with
+  | "list" => .list
+  | "tuple" => .tuple
+  | _ => .set
+
+instance : Inhabited Expr := ⟨.lit .ellipsis []⟩
+instance : Inhabited Exprs := ⟨.nil⟩
+instance : Inhabited Args := ⟨.nil⟩
+instance : Inhabited Items := ⟨.nil⟩
+instance : Inhabited Rest := ⟨.nil⟩
+instance : Inhabited OExpr := ⟨.none⟩
+
+mutual
+partial def toExpr (j : Json) : Expr :=
+  match str j "t" with
+  | "name" => .name (txt (field j "n")) (optTxt (field j "f"))
+  | "member" => .member (toExpr (field j "e")) (txt (field j "n")) (optTxt (field j "f"))
+  | "index" => .index (toExpr (field j "b")) (toExpr (field j "i"))
+  | "call" => .call (toExpr (field j "c")) (toArgs (arr j "args"))
+  | "seq" => .seq (seqKind (str j "k")) (toExprs (arr j "items"))
+  | "dict" => .dict (toItems (arr j "items"))
+  | "star" => .star (toExpr (field j "e"))
+  | "unary" => .unary (txt (field j "op")) (toExpr (field j "e"))
+  | "op" => .op (txt (field j "op")) (toExpr (field j "l")) (toExpr (field j "r"))
+  | "cmp" => .cmp (toExpr (field j "first")) (toRest (arr j "rest"))
+  | "slice" => .slice (toO (field j "b")) (toO (field j "e")) (toO (field j "s"))
+  | "lit" => .lit (litKind (str j "k")) (txt (field j "v"))
+  | _ => .other (txt (field j "kind")) (txt (field j "sc")) (txt (field j "syn"))
+partial def toExprs : List Json → Exprs
+  | [] => .nil
+  | x :: t => .cons (toExpr x) (toExprs t)
+partial def toArgs : List Json → Args
+  | [] => .nil
+  | x :: t =>
+    match x with
+    | .arr #[e, k, n] => .cons (toExpr e) ((k.getNat?).toOption.getD 0) (optTxt n) (toArgs t)
+    | _ => toArgs t
+partial def toItems : List Json → Items
+  | [] => .nil
+  | x :: t =>
+    match x with
+    | .arr #[k, v] => .cons (toO k) (toExpr v) (toItems t)
+    | _ => toItems t
+partial def toRest : List Json → Rest
+  | [] => .nil
+  | x :: t =>
+    match x with
+    | .arr #[o, e] => .cons (txt o) (toExpr e) (toRest t)
+    | _ => toRest t
+partial def toO (j : Json) : OExpr :=
+  match j with
+  | .null => .none
+  | x => .some (toExpr x)
+end
+
+def cps (l : Equiv.Str) : Json := Json.arr (l.map (fun c => (c.toNat : Json))).toArray
+
+end EquivW
+
+open EquivW in
+/-- driver verbs of C06 -/
+def handleEquiv (verb : String) (j : Json) : Option Json :=
+  match verb with
+  | "equiv" =>
+    let a := toO (field j "a")
+    let b := toO (field j "b")
+    let syn : Json := match a, b with
+      | .some x, .some y => Equiv.synEqB x y
+      | _, _ => Json.null
+    some (Json.mkObj [("eq", Equiv.isEquivO Generated.equivCfg a b), ("syn", syn)])
+  | "equiv_common" =>
+    some (match Equiv.commonPositions Generated.equivCfg ((arr j "exprs").map toExpr) with
+      | none => Json.null
+      | some (i, k) => Json.arr #[i, k])
+  | "equiv_unmangle" => some (cps (Equiv.unmangle (optTxt (field j "s"))))
+  | "equiv_litrepr" => some (cps (Equiv.litRepr (litKind (str j "k")) (txt (field j "v"))))
+  | _ => none
 
 end RefurbVerif.Wire
